@@ -461,7 +461,22 @@ impl<'a> CaseRun<'a> {
             Ok(Ok(log)) => log.verif_paths().iter().map(|p| self.fidx_of(p)).collect(),
             _ => match explicit {
                 Some(o) => o.to_vec(),
-                None => self.model_accepted(filter),
+                None => {
+                    // `open` failed and reveals no path order: list the directory the way `open` does
+                    // (same `read_dir`, the directory is unchanged in between) and keep the accepted files
+                    let acc = self.model_accepted(filter);
+                    let mut listed: Vec<usize> = std::fs::read_dir(&self.dir)
+                        .unwrap()
+                        .map(|e| self.fidx_of(&e.unwrap().path()))
+                        .filter(|i| acc.contains(i))
+                        .collect();
+                    for i in acc {
+                        if !listed.contains(&i) {
+                            listed.push(i);
+                        }
+                    }
+                    listed
+                }
             },
         };
         match explicit {
@@ -487,7 +502,7 @@ impl<'a> CaseRun<'a> {
             }
             Ok(Ok(mut log)) => {
                 self.tr.out("open ok");
-                self.dump(&mut log, &order, explicit);
+                self.dump(&mut log, &order, explicit, filter);
             }
         }
     }
@@ -512,12 +527,12 @@ impl<'a> CaseRun<'a> {
         v
     }
 
-    fn dump(&mut self, log: &mut OutputLog, order: &[usize], explicit: Option<&[usize]>) {
+    fn dump(&mut self, log: &mut OutputLog, order: &[usize], explicit: Option<&[usize]>, filter: Option<&str>) {
         let index = log.verif_index();
         // ground truth over the files that are in the listing that was opened
         let present: Vec<&DiskFile> = match explicit {
             Some(o) => self.files.iter().filter(|f| o.contains(&f.fidx)).collect(),
-            None => self.files.iter().collect(),
+            None => self.files.iter().filter(|f| filter.is_none() || f.uid.is_none() || f.uid.as_deref() == filter).collect(),
         };
         let truth = truth(&present);
         let cuts: BTreeMap<usize, usize> = self.files.iter().map(|f| (f.fidx, f.cut)).collect();
